@@ -127,3 +127,50 @@ func TestC16Reg_ForeignProof(t *testing.T) {
 		}
 	}
 }
+
+// TestC16Reg_StubWrapAround: (finding KF-C16-stub-wraparound, found by the thorough tier) the honest non-membership
+// proof of an absent key that ends at the max sentinel must not be accepted as a non-membership proof of a PRESENT key
+// whose path runs through the stub sibling: the verifier looked up the stub's missing child under the empty key, got the
+// rebuilt root back and walked on to proof[0].
+func TestC16Reg_StubWrapAround(t *testing.T) {
+	pool := sm.Pool()
+	var a, b []byte
+	for i := range pool.Keys {
+		h := pool.Hashes[i][0]
+		if a == nil && h>>6 == 1 { // 01......
+			a = pool.Keys[i]
+		}
+		if b == nil && h>>7 == 1 && h != 0xff { // 1.......
+			b = pool.Keys[i]
+		}
+	}
+	s := openStore(t)
+	defer s.Close()
+	if err := s.Set(bytes.Clone(a), []byte{1}); err != nil {
+		t.Fatal(err)
+	}
+	root, err := s.Commit()
+	if err != nil {
+		t.Fatal(err)
+	}
+	ro, err := s.NewReadOnly(s.Version())
+	if err != nil {
+		t.Fatal(err)
+	}
+	defer ro.Discard()
+	st := ro.(*store.Store)
+	proofB, err := st.GetProof(bytes.Clone(b))
+	if err != nil {
+		t.Fatal(err)
+	}
+	if ok, _, pan := safeVerify(st, b, nil, false, root, cloneProof(proofB)); !ok || pan != nil {
+		t.Fatalf("honest non-membership proof of the absent key rejected (ok=%v panic=%v)", ok, pan)
+	}
+	ok, _, pan := safeVerify(st, a, nil, false, root, cloneProof(proofB))
+	if pan != nil {
+		t.Fatalf("panic: %v", pan)
+	}
+	if ok {
+		t.Fatalf("the only present key %x was proven ABSENT with the non-membership proof of another key (%d nodes)", a, len(proofB))
+	}
+}
